@@ -250,5 +250,6 @@ pub fn run(tier: Tier, seed: u64) -> i32 {
         exhaustive_note: "all signal lists and headers within the stated bounds".into(),
         e1: false,
     };
+    st.merge(crate::props::c13::api_use_part(&deadline));
     finish(meta, st, started)
 }
